@@ -69,14 +69,16 @@ def rt_replay(env):
     cases = [('Gaussian', GaussianUnivariate(), X), ('Beta', BetaUnivariate(), X), ('KDE', GaussianKDE(), X),
              ('KDE silverman', GaussianKDE(bw_method='silverman'), X), ('StudentT', StudentTUnivariate(), X),
              ('Gaussian constant 0.7', GaussianUnivariate(), np.full(100, 0.7)),
-             ('Truncated', TruncatedGaussian(), X)]
+             ('Truncated', TruncatedGaussian(), X),
+             ('wrapper of KDE scalar bw', Univariate(candidates=[GaussianKDE(bw_method=0.3)]), X),
+             ('wrapper of KDE silverman', Univariate(candidates=[GaussianKDE(bw_method='silverman')]), X)]
     for name, m, data in cases:
         m.fit(data)
         d = m.to_dict()
         for via in ('dict', 'json'):
             dd = json.loads(json.dumps(d)) if via == 'json' else d
             m2 = Univariate.from_dict(dd)
-            if type(m2) is not type(m) or m2.to_dict() != d:
+            if type(m2) is not type(getattr(m, '_instance', None) or m) or m2.to_dict() != d:
                 bad.append('%s via %s: class or dict changed' % (name, via))
             for f in ('cumulative_distribution', 'probability_density'):
                 if not np.allclose(getattr(m, f)(x), getattr(m2, f)(x), rtol=1e-12, atol=0, equal_nan=True):
@@ -142,6 +144,10 @@ def build_univariate(chk):
     configs.append(('GaussianKDE', {'bw_method': 0.5}, 'scalar_bw'))
     configs.append(('GaussianKDE', {'sample_size': Sym(ir.var('ss', 'I'))}, 'sample_size'))
     configs.append(('Univariate', {}, 'wrapper'))
+    # the selecting wrapper whose (only) candidate is a configured KDE prototype: the bandwidth rule must survive the round trip
+    # of the WRAPPER too (its to_dict is assembled from the selected instance)
+    configs.append(('Univariate', {'candidates': 'kde_scalar_bw'}, 'wrapper_kde_scalar_bw'))
+    configs.append(('Univariate', {'candidates': 'kde_silverman'}, 'wrapper_kde_silverman'))
     for cls, kw, cfg in configs:
         for constant in (False, True):
             for via in ('dict', 'json', 'pickle'):
@@ -150,12 +156,20 @@ def build_univariate(chk):
                 tag = '%s.%s.%s.%s' % (cls, cfg, 'constant' if constant else 'fitted', via)
                 I = engine.new_interp()
                 gm.install_rootfinders(I)
-                if cls == 'Univariate':
+                if cls == 'Univariate' and kw:
+                    # contract of the selection (C05): a fresh copy, made by get_instance, of one of the candidates
+                    I.summaries['copulas.univariate.selection.select_univariate'] = \
+                        lambda interp, args, kwargs: interp.call_qual('copulas.utils.get_instance', [list(args[1])[0]], {})
+                elif cls == 'Univariate':
                     I.summaries['copulas.univariate.selection.select_univariate'] = \
                         lambda interp, args, kwargs: uni.new_model(interp, 'GammaUnivariate')
 
                 def body(c, I=I, cls=cls, kw=kw, constant=constant, via=via):
                     q = uni.CLASSES[cls][0] if cls in uni.CLASSES else UNIV
+                    kw = dict(kw)
+                    if isinstance(kw.get('candidates'), str):
+                        bw = 0.5 if kw['candidates'] == 'kde_scalar_bw' else 'silverman'
+                        kw['candidates'] = PyList([uni.new_model(I, 'GaussianKDE', (), {'bw_method': bw})])
                     m = I.call_qual(q, [], dict(kw))
                     c.assume(ir.ge(uni.N, 2))
                     c.assume(ir.ge(M, 1))
